@@ -134,6 +134,12 @@ class HybridRun:
                                        "start": as_vec(smp.current_point)}
                     if len(visits) >= 2 and visits[-2] != name:
                         ctx.hit("block_update_after_another_block_changed")
+                if self.raise_at is not None and self.raise_at[0] == name:
+                    self.raise_at[1] -= 1
+                    if self.raise_at[1] < 0:
+                        self.raise_at = None
+                        ctx.fault("block_update_interrupted")
+                        raise core.SimCrash("interrupt in block " + name)
                 cnt[0] += 1
                 self.in_step["name"] = name
                 try:
@@ -190,14 +196,28 @@ class HybridRun:
         g._store_samples = store
 
         total = 0
+        self.raise_at = None
         for op in self.case["ops"]:
             ctx.log("op", op["op"], op.get("n"))
-            if op["op"] == "warmup":
-                g.warmup(int(op["n"]))
-                total += int(op["n"])
-            elif op["op"] == "sample":
-                g.sample(int(op["n"]))
-                total += int(op["n"])
+            if op["op"] == "interrupt":
+                # a block sampler raises in the middle of a sweep; the same Gibbs object is used again afterwards
+                blk = names[op["block"] % len(names)]
+                self.raise_at = [blk, int(op["after"])]
+                continue
+            before = len(hist)
+            try:
+                if op["op"] == "warmup":
+                    g.warmup(int(op["n"]))
+                elif op["op"] == "sample":
+                    g.sample(int(op["n"]))
+            except core.SimCrash:
+                # the aborted sweep was not stored; blocks updated before the abort keep their new values
+                del visits[:]
+                for n_ in names:
+                    g.samplers[n_]._verif_cnt[0] = 0
+                ctx.hit("sweep_aborted_then_continued")
+            total += len(hist) - before
+            self.raise_at = None
         ctx.nontrivial = total > 0
         # ---- final record = history of the reference model
         if total:
@@ -333,6 +353,13 @@ class LegacyRun:
                 return made[name](target)
             return make
 
+        if sc.get("init_point_attr"):
+            # the legacy sampler honours an `init_point` attribute on a block's distribution for the very first sweep
+            b0 = sorted(sc["strategy"])[sc["init_point_attr"] % len(sc["strategy"])]
+            d0 = J.get_density(b0)
+            d0.init_point = np.full(d0.dim, 1.5)
+            twin.get_density(b0).init_point = np.full(d0.dim, 1.5)
+            ctx.hit("init_point_attribute")
         strat = {b: factory(b, st) for b, st in sc["strategy"].items()}
         if sc.get("tuple_keys"):
             # legacy strategy with a tuple key: one sampler class shared by several blocks.  The factory of the first
@@ -419,6 +446,7 @@ def gen_case(r, tier):
     if legacy:
         sc["Nb"] = r.choice([0, 0, 2, 5])
         sc["tuple_keys"] = r.random() < 0.4
+        sc["init_point_attr"] = r.randint(1, 5) if r.random() < 0.3 else 0
         for _ in range(r.randint(1, 3)):
             ops.append({"op": "sample", "n": r.randint(1, 8)})
     else:
@@ -433,7 +461,13 @@ def gen_case(r, tier):
         if r.random() < 0.5:
             ops.append({"op": "warmup", "n": r.randint(1, 12)})
         for _ in range(r.randint(1, 3)):
+            # NOTE: no "interrupt" op is generated.  A first version raised inside a block update and continued the run; it
+            # reported on the UNCHANGED tree that after an abort inside a multi-step block update the block's sampler is
+            # ahead of the orchestrator's current value.  C09 speaks about sweeps; what a half-executed sweep leaves behind
+            # is not specified by it, so the check demanded more than the property states (the interpreter support stays).
             ops.append({"op": "sample", "n": r.randint(1, 10)})
+        if ops and ops[-1]["op"] != "sample":
+            ops.append({"op": "sample", "n": r.randint(1, 6)})
     return {"scenario": sc, "ops": ops}
 
 
